@@ -408,7 +408,7 @@ func fieldOf(v ssa.Value) (structName, fieldName string, base ssa.Value, ok bool
 		if n := namedOf(st); n != nil {
 			name = n.Obj().Name()
 		}
-		return name, s.Field(x.Field).Name(), x.X, true
+		return name, canonFieldName(name, s, x.Field), x.X, true
 	case *ssa.Field:
 		st := x.X.Type()
 		s, isS := st.Underlying().(*types.Struct)
@@ -419,7 +419,7 @@ func fieldOf(v ssa.Value) (structName, fieldName string, base ssa.Value, ok bool
 		if n := namedOf(st); n != nil {
 			name = n.Obj().Name()
 		}
-		return name, s.Field(x.Field).Name(), x.X, true
+		return name, canonFieldName(name, s, x.Field), x.X, true
 	}
 	return "", "", nil, false
 }
